@@ -438,6 +438,34 @@ the statement clears the count on a successful call through the gateway and on n
 so a gateway failure that finds the count at the threshold leaves the breaker open whenever it
 is recorded; the unchanged interceptor does that, 100 000 runs without a report).
 
+Thirteenth wave (suffix m), 16 changes: 9 were caught as delivered (C02m, C05m, C06m, C08m,
+C09m, C10m, C15m, C17m, C18m), C03m by the C18 check (a filter-tree node's flow slice handed
+out without a copy: overlapping transactions overwrite each other's selection), 6 were missed
+at first. What was changed:
+C01m (every request had an id of its own: a quarter of the runs re-send the id of an earlier,
+completed request now and then - every transaction counts, whatever it calls itself),
+C04m (the flow that uses another flow's processor as `f1.g1` never had a `g1` of its own: in
+half of those runs it declares one, configured differently, and connects nothing to it),
+C11m (a transaction id was never seen again after its response: in a third of the C11H runs an
+answered transaction may come back under its id - the request of its next attempt, then that
+attempt's response; the version of its first request stands),
+C19m (only the requests hook was built on the fail-safe: the package builds one hook per
+installed client library on the one shared fail-safe, each registering its own connection
+errors; aiohttp and tornado are stubbed far enough for their hooks to be constructed, in the
+package's order, in three quarters of the runs),
+C20m (the reactions took no time: in a quarter of the runs the unhealthy reaction takes up to
+more than a cool-down; the cool-down follows the reaction, it is measured from its return),
+C12m (a replayed response never reached the response side of its remedy, as it does through
+the dispatcher: half of the runs feed every replay back. That alarmed on the unchanged tree -
+a genuine defect, the replay of an entry that expired between the lookup and the
+store-if-absent was stored again for a full time-to-live; fix `3bc4b0c`. With the fix C12m,
+a boundary mismatch between `Has` and `Get` that only mattered through that feedback, is
+harmless).
+The sub-agent of C18m noted a second defect of the unchanged tree in its report: the quota
+gauge of the strategy-based throttling remedy panics (integer divide by zero) when it is read
+between the publication of a never-seen pair's state and that pair's first increment. The
+new scenario C18Q reproduces it (seed 1000061); fix `afac3f1`.
+
 ### 12.1 Reverting the repairs
 
 `tools/revert_all_fixes.py` reverts every `fix:` commit, one at a time, in a scratch worktree
